@@ -248,6 +248,10 @@ def evaluate(c):
                 z1 = np.array([s.impedance for s in m.sources])
                 z2 = np.array([s.impedance for s in m2.sources])
                 tol = 5e-6 if not m.loads else 5e-5
+                if c['base'] == 'fuzzy':
+                    # the solver keeps the raw coordinates of fuzzily joined ends (its impedance moves by ~500 x offset/m),
+                    # the written input carries the consolidated ones: 1e-10 m offsets leave ~1e-6, rotated ones more
+                    tol = 5e-5
                 if np.max(np.abs(z1 - z2) / np.abs(z1)) > tol:
                     ins = any(type(l).__name__ == 'Insulation_Load' and l.epsilon_r != 1 for l in m.loads)
                     viol.append(('REBUILT-Z' + ('-insulation' if ins else ''), '%s: feed impedance %s, rebuilt from the BASIC input %s' % (label, z1, z2)))
